@@ -51,7 +51,7 @@ EXPECTED_PROBES = ["cls_Dataset", "cls_Dataset2d", "cls_Dataset3d", "cls_Dataset
                    "getitem_partial", "length1_axis", "rejected_setter", "rejected_shape_arg",
                    "inplace_vs_copy_compared", "pairs_steered", "complex_dtype", "int_dtype",
                    "axis_ge_16", "getitem_numpy_int_slice_step", "bin_factor_equals_axis_length",
-                   "pad_width_larger_than_axis", "pad_mode_other", "layout_F", "layout_strided", "layout_readonly", "layout_negstride"]
+                   "pad_width_larger_than_axis", "pad_mode_other", "nonfinite_values_in_data", "layout_F", "layout_strided", "layout_readonly", "layout_negstride"]
 
 _D = {}
 _registry0 = None
@@ -182,6 +182,10 @@ def _mkarray(shape, dtype, fill):
         a = (g.standard_normal(shape) + 1j * g.standard_normal(shape)).astype(dt)
     elif dt.kind == "f":
         a = g.standard_normal(shape).astype(dt)
+    if dt.kind in "fc" and fill % 6 == 0 and a.size:
+        # special values in the data: NaN, +-inf, -0.0 (a 'bad pixel')
+        a.flat[fill % a.size] = np.nan
+        a.flat[(fill // 7) % a.size] = [np.inf, -np.inf, -0.0, np.nan][fill % 4]
     elif dt.kind == "u":
         a = g.integers(0, 200, shape).astype(dt)
     elif dt.kind == "b":
@@ -208,13 +212,30 @@ def _layout(a, layout):
     return a.copy()
 
 
+def _canon(a):
+    """Contiguous copy with every NaN replaced by ONE NaN bit pattern (payload and sign of a NaN are
+    not data; whether an element IS a NaN is)."""
+    a = np.ascontiguousarray(a)
+    if a.dtype.kind == "f":
+        m = np.isnan(a)
+        if m.any():
+            a = a.copy()
+            a[m] = np.nan
+    elif a.dtype.kind == "c":
+        m = np.isnan(a.real) | np.isnan(a.imag)
+        if m.any():
+            a = a.copy()
+            a[m] = complex(np.nan, np.nan)
+    return a
+
+
 def snap(ds):
     """Immutable snapshot of every public attribute that the property talks about."""
     return {
         "cls": type(ds).__name__,
         "dtype": str(ds.array.dtype),
         "shape": tuple(ds.array.shape),
-        "bytes": hashlib.blake2b(np.ascontiguousarray(ds.array).tobytes(), digest_size=10).hexdigest(),
+        "bytes": hashlib.blake2b(_canon(ds.array).tobytes(), digest_size=10).hexdigest(),
         "origin": np.asarray(ds.origin, dtype=float).tolist(),
         "origin_dt": str(np.asarray(ds.origin).dtype),
         "sampling": np.asarray(ds.sampling, dtype=float).tolist(),
@@ -455,6 +476,8 @@ def run(plan):
                     bump(probes, "length1_axis")
                 if np.dtype(op["dtype"]).kind == "c":
                     bump(probes, "complex_dtype")
+                if arr.dtype.kind in "fc" and not np.isfinite(arr).all():
+                    bump(probes, "nonfinite_values_in_data")
                 if np.dtype(op["dtype"]).kind in "iu":
                     bump(probes, "int_dtype")
                 g = Rng(op["fill"])
